@@ -275,7 +275,7 @@ Section Spec.
             end
         | None => BIgnored
         end
-    | OForwardKeepN sid _ => match fmap h sid with Some _ => BUnit | None => BIgnored end
+    | OForwardKeepN sid _ | OFrontHook sid => match fmap h sid with Some _ => BUnit | None => BIgnored end
     | OForwardKeep sid _ =>
         match fmap h sid with
         | Some m => BFwd kinst (id_of val vempty m) (vfront sid) sid
